@@ -97,4 +97,669 @@ theorem knuthRow_zero {xs ys : List Nat} {xHi : Nat} (hx : WF xs) (hy : WF ys)
     rw [e, h1, Nat.mod_eq_of_lt hxHi, Nat.div_eq_of_lt hxHi]
   rw [knuthRow, knuthBorrow, mulSubRow_zero hx hy hl, hs, fromWordMask, addBackRow_zero hx hy hl]
 
+
+theorem val_take_drop (l : List Nat) (i : Nat) :
+    val l = val (l.take i) + B ^ (l.take i).length * val (l.drop i) := by
+  conv => lhs; rw [← List.take_append_drop i l]
+  rw [val_append]
+
+theorem WF_take {l : List Nat} (h : WF l) (i : Nat) : WF (l.take i) :=
+  fun x hx => h x (List.mem_of_mem_take hx)
+theorem WF_drop {l : List Nat} (h : WF l) (i : Nat) : WF (l.drop i) :=
+  fun x hx => h x (List.mem_of_mem_drop hx)
+
+theorem getD_lt {l : List Nat} (h : WF l) (i : Nat) : l.getD i 0 < B := by
+  rw [List.getD_eq_getElem?_getD]
+  cases hh : l[i]? with
+  | none => exact B_pos
+  | some v => exact h v (List.mem_of_getElem? hh)
+
+/-- top-two decomposition of a row of `m ≥ 2` limbs -/
+theorem val_top2 {l : List Nat} {m : Nat} (hm : 2 ≤ m) (hl : l.length = m) (h : WF l) :
+    val l = val (l.take (m - 2)) + B ^ (m - 2) * (l.getD (m - 2) 0 + B * l.getD (m - 1) 0) ∧
+    val (l.take (m - 2)) < B ^ (m - 2) := by
+  have hlen : (l.take (m - 2)).length = m - 2 := by rw [List.length_take]; omega
+  have h1 := val_take_drop l (m - 2)
+  rw [hlen] at h1
+  have hd : l.drop (m - 2) = [l.getD (m - 2) 0, l.getD (m - 1) 0] := by
+    apply List.ext_getElem
+    · simp; omega
+    · intro i h1 h2
+      simp at h2
+      have : i = 0 ∨ i = 1 := by omega
+      rcases this with rfl | rfl
+      · simp [List.getD_eq_getElem?_getD]
+        rw [List.getElem?_eq_getElem (by omega)]; simp
+      · simp [List.getD_eq_getElem?_getD]
+        have e : m - 2 + 1 = m - 1 := by omega
+        rw [List.getElem?_eq_getElem (by omega)]; simp [e]
+  rw [hd] at h1
+  have hlt := val_lt (WF_take h (m - 2))
+  rw [hlen] at hlt
+  refine ⟨?_, hlt⟩
+  rw [h1]; simp [val]
+
+theorem select_digit {quo q msk alt : Nat} (hq : quo < B) (ha : alt < B) (hest : quo = q ∨ quo = q + 1)
+    (hm : msk = mask (decide (quo = q + 1))) (halt : quo = q + 1 → alt = q) : selectWord quo alt msk = q := by
+  rcases hest with he | he
+  · have : decide (quo = q + 1) = false := by simp; omega
+    rw [this] at hm
+    have hm0 : msk = 0 := hm
+    rw [hm0, selectWord_zero hq ha, he]
+  · have : decide (quo = q + 1) = true := by simp [he]
+    rw [this] at hm
+    have hm1 : msk = WMAX := hm
+    rw [hm1, selectWord_max hq ha]; exact halt he
+
+theorem rem_of_eq {r q Y W : Nat} (h1 : r + q * Y = W) (h2 : Y * q + W % Y = W) : r = W % Y := by
+  rw [Nat.mul_comm] at h2; omega
+
+theorem wsub_one_of_succ {quo q : Nat} (hq : quo < B) (he : quo = q + 1) : wsub quo 1 = q := by
+  subst he; simp only [wsub, B_def] at *; omega
+
+/-- **T02.4 (digit)** one complete Knuth digit on a row of `m ≥ 2` limbs: the 3-by-2 estimate from the
+    three top window limbs and the two top divisor limbs, multiply-subtract, masked add-back and the
+    decrement give exactly `W / Y` and leave `W % Y` (`W = x_hi·Bᵐ + x`, `W < Y·B`, `Y` normalised). -/
+theorem knuth_digit {rc : Reciprocal} (ok : RcOK rc) {xs ys : List Nat} {xHi m : Nat}
+    (hm : 2 ≤ m) (hxl : xs.length = m) (hyl : ys.length = m) (hx : WF xs) (hy : WF ys) (hxHi : xHi < B)
+    (hv1 : ys.getD (m - 1) 0 = rc.divisorNormalized)
+    (hW : val xs + B ^ m * xHi < val ys * B) :
+    val (knuthRow xs ys xHi (div3by2 xHi (xs.getD (m - 1) 0) (xs.getD (m - 2) 0) rc (ys.getD (m - 2) 0))).1
+      = (val xs + B ^ m * xHi) % val ys ∧
+    WF (knuthRow xs ys xHi (div3by2 xHi (xs.getD (m - 1) 0) (xs.getD (m - 2) 0) rc (ys.getD (m - 2) 0))).1 ∧
+    (knuthRow xs ys xHi (div3by2 xHi (xs.getD (m - 1) 0) (xs.getD (m - 2) 0) rc (ys.getD (m - 2) 0))).1.length = m ∧
+    selectWord (div3by2 xHi (xs.getD (m - 1) 0) (xs.getD (m - 2) 0) rc (ys.getD (m - 2) 0))
+      (wsub (div3by2 xHi (xs.getD (m - 1) 0) (xs.getD (m - 2) 0) rc (ys.getD (m - 2) 0)) 1)
+      (knuthRow xs ys xHi (div3by2 xHi (xs.getD (m - 1) 0) (xs.getD (m - 2) 0) rc (ys.getD (m - 2) 0))).2
+      = (val xs + B ^ m * xHi) / val ys ∧
+    selectWord (div3by2 xHi (xs.getD (m - 1) 0) (xs.getD (m - 2) 0) rc (ys.getD (m - 2) 0))
+      ((div3by2 xHi (xs.getD (m - 1) 0) (xs.getD (m - 2) 0) rc (ys.getD (m - 2) 0)) - 1)
+      (knuthRow xs ys xHi (div3by2 xHi (xs.getD (m - 1) 0) (xs.getD (m - 2) 0) rc (ys.getD (m - 2) 0))).2
+      = (val xs + B ^ m * xHi) / val ys := by
+  obtain ⟨ex, hwl⟩ := val_top2 hm hxl hx
+  obtain ⟨ey, hyl'⟩ := val_top2 hm hyl hy
+  have hu1 := getD_lt hx (m - 1)
+  have hu0 := getD_lt hx (m - 2)
+  have hv0 := getD_lt hy (m - 2)
+  rw [hv1] at ey
+  have hd1 := ok.h1
+  have hd2 := ok.h2
+  generalize xs.getD (m - 1) 0 = u1 at *
+  generalize xs.getD (m - 2) 0 = u0 at *
+  generalize ys.getD (m - 2) 0 = v0 at *
+  generalize hv1' : rc.divisorNormalized = v1 at *
+  have hBm : B ^ m = B ^ (m - 2) * B * B := by
+    have : m = (m - 2) + 1 + 1 := by omega
+    conv => lhs; rw [this]
+    rw [Nat.pow_succ, Nat.pow_succ]
+  generalize hK : B ^ (m - 2) = K at *
+  have hKpos : 0 < K := by rw [← hK]; exact Nat.pow_pos B_pos
+  generalize val (xs.take (m - 2)) = wl at *
+  generalize val (ys.take (m - 2)) = yl at *
+  have hWeq : val xs + B ^ m * xHi = ((xHi * B + u1) * B + u0) * K + wl := by
+    rw [ex, hBm]; ring
+  have hYeq : val ys = (v1 * B + v0) * K + yl := by rw [ey]; ring
+  rw [hWeq] at hW ⊢
+  generalize hWd : ((xHi * B + u1) * B + u0) * K + wl = W at *
+  generalize hYd : val ys = Y at *
+  -- x_hi ≤ v1
+  have hu2 : xHi ≤ v1 := by
+    by_contra hc
+    have h1 : (v1 + 1) * (B * B * K) ≤ xHi * (B * B * K) := Nat.mul_le_mul_right _ (by omega)
+    have h2 : Y * B < (v1 + 1) * (B * B * K) := by
+      have : Y < (v1 * B + B) * K := by
+        rw [hYeq]
+        have : (v1 * B + v0) * K + K ≤ (v1 * B + B) * K := by
+          rw [← Nat.succ_mul]; exact Nat.mul_le_mul_right K (by omega)
+        omega
+      have h3 : Y * B < (v1 * B + B) * K * B := Nat.mul_lt_mul_of_pos_right this B_pos
+      have e : (v1 * B + B) * K * B = (v1 + 1) * (B * B * K) := by ring
+      omega
+    have h3 : xHi * (B * B * K) ≤ W := by
+      rw [← hWd]
+      have e : ((xHi * B + u1) * B + u0) * K = xHi * (B * B * K) + (u1 * B + u0) * K := by ring
+      omega
+    omega
+  have hquo := div3by2_exact (u2 := xHi) ok.h1 ok.h2 ok.hv (hv1'.symm ▸ hu2) hu1 hu0 hv0
+  rw [hv1'] at hquo
+  have hv2 : HALF * B ≤ v1 * B + v0 := by
+    have := Nat.mul_le_mul_right B hd1
+    omega
+  have hest := qhat_within_one hWd.symm hwl hYeq hyl' hv2 hW
+  rw [← hquo] at hest
+  generalize div3by2 xHi u1 u0 rc v0 = quo at *
+  have hYpos : 0 < Y := by
+    have h0 : 0 < v1 * B + v0 := Nat.lt_of_lt_of_le (by decide) hv2
+    rw [hYeq]; exact Nat.lt_of_lt_of_le (Nat.mul_pos h0 hKpos) (Nat.le_add_right _ _)
+  have hqlt : quo < B := by
+    rw [hquo]; exact Nat.lt_of_le_of_lt (Nat.min_le_right _ _) (Nat.sub_lt B_pos (by decide))
+  have hlo : W / Y * Y ≤ W := Nat.div_mul_le_self W Y
+  have hhi : W < (W / Y + 1) * Y := by rw [Nat.mul_comm]; exact Nat.lt_mul_div_succ W hYpos
+  have hdm := Nat.div_add_mod W Y
+  have hWx : val xs + B ^ xs.length * xHi = W := by rw [hxl, hWeq]
+  have hks := knuthRow_spec (q := W / Y) hx hy (by rw [hxl, hyl]) hxHi hqlt
+    (by rw [hWx, hYd]; exact hlo) (by rw [hWx, hYd]; exact hhi) hest
+  obtain ⟨k1, k2, k3, k4⟩ := hks
+  rw [hWx, hYd] at k1
+  rw [hxl] at k4
+  refine ⟨rem_of_eq k1 hdm, k3, k4, ?_, ?_⟩
+  · exact select_digit hqlt (wslt _ _) hest k2 (fun he => wsub_one_of_succ hqlt he)
+  · exact select_digit hqlt (Nat.lt_of_le_of_lt (Nat.sub_le _ _) hqlt) hest k2
+      (fun he => by rw [he]; exact Nat.add_sub_cancel _ _)
+
+
+theorem getD_mid (a b c : List Nat) (j : Nat) (hj : j < b.length) :
+    (a ++ b ++ c).getD (a.length + j) 0 = b.getD j 0 := by
+  simp only [List.getD_eq_getElem?_getD, List.append_assoc]
+  rw [List.getElem?_append_right (by omega)]
+  have : a.length + j - a.length = j := by omega
+  rw [this, List.getElem?_append_left hj]
+
+theorem set_mid_last (a rl c : List Nat) (rt q : Nat) :
+    (a ++ (rl ++ [rt]) ++ c).set (a.length + rl.length) q = a ++ (rl ++ [q]) ++ c := by
+  simp only [List.append_assoc]
+  rw [List.set_append_right _ _ (by omega)]
+  have : a.length + rl.length - a.length = rl.length := by omega
+  rw [this, List.set_append_right _ _ (by omega)]
+  simp
+
+theorem snoc_decomp {l : List Nat} {n : Nat} (h : l.length = n + 1) : l = l.take n ++ [l.getD n 0] := by
+  apply List.ext_getElem
+  · simp [h]
+  · intro i h1 h2
+    by_cases hi : i < n
+    · rw [List.getElem_append_left (by simp; omega)]; simp
+    · have : i = n := by omega
+      subst this
+      rw [List.getElem_append_right (by simp)]
+      simp [List.getD_eq_getElem?_getD, List.getElem?_eq_getElem h1]
+
+theorem take_mid (a b c : List Nat) : (a ++ b ++ c).take a.length = a := by
+  rw [List.append_assoc]; exact List.take_left' rfl
+theorem drop_take_mid (a b c : List Nat) : ((a ++ b ++ c).drop a.length).take b.length = b := by
+  rw [List.append_assoc, List.drop_left' rfl]; exact List.take_left' rfl
+theorem drop_mid (a b c : List Nat) : (a ++ b ++ c).drop (a.length + b.length) = c := by
+  exact List.drop_left' (by simp)
+
+
+/-- one pass of the vartime loop on a structured state `lo ++ win ++ Q` -/
+theorem vtRow_struct {rc : Reciprocal} (ok : RcOK rc) {y lo win Q : List Nat} {xHi yc k xi : Nat}
+    (hyc : 2 ≤ yc) (hyl : y.length = yc) (hy : WF y) (hv1 : y.getD (yc - 1) 0 = rc.divisorNormalized)
+    (hlo : lo.length = k) (hwin : win.length = yc) (hxi : xi + 1 = k + yc)
+    (hw : WF win) (hxHi : xHi < B) (hW : val win + B ^ yc * xHi < val y * B) :
+    ∃ rl rt, rl.length = yc - 1 ∧ WF rl ∧ rt < B ∧
+      val rl + B ^ (yc - 1) * rt = (val win + B ^ yc * xHi) % val y ∧
+      vtRow rc y yc xi (lo ++ win ++ Q) xHi =
+        (lo ++ (rl ++ [rt]) ++ Q, rt, (val win + B ^ yc * xHi) / val y) := by
+  have e1 : xi + 1 - yc = lo.length := by omega
+  have e2 : xi = lo.length + (yc - 1) := by omega
+  have e3 : xi - 1 = lo.length + (yc - 2) := by omega
+  have e4 : xi + 1 = lo.length + win.length := by omega
+  have g1 : (lo ++ win ++ Q).getD xi 0 = win.getD (yc - 1) 0 := by
+    rw [e2]; exact getD_mid lo win Q _ (by omega)
+  have g2 : (lo ++ win ++ Q).getD (xi - 1) 0 = win.getD (yc - 2) 0 := by
+    rw [e3]; exact getD_mid lo win Q _ (by omega)
+  have t1 : (lo ++ win ++ Q).take (xi + 1 - yc) = lo := by rw [e1]; exact take_mid lo win Q
+  have t2 : ((lo ++ win ++ Q).drop (xi + 1 - yc)).take yc = win := by
+    rw [e1, ← hwin]; exact drop_take_mid lo win Q
+  have t3 : (lo ++ win ++ Q).drop (xi + 1) = Q := by rw [e4]; exact drop_mid lo win Q
+  obtain ⟨d1, d2, d3, d4, _⟩ := knuth_digit ok hyc hwin hyl hw hy hxHi hv1 hW
+  generalize hquo : div3by2 xHi (win.getD (yc - 1) 0) (win.getD (yc - 2) 0) rc (y.getD (yc - 2) 0) = quo at *
+  generalize hrow : knuthRow win y xHi quo = row at *
+  have hdec := snoc_decomp (l := row.1) (n := yc - 1) (by omega)
+  refine ⟨row.1.take (yc - 1), row.1.getD (yc - 1) 0, by simp [d3], WF_take d2 _, getD_lt d2 _, ?_, ?_⟩
+  · rw [← d1]
+    conv => rhs; rw [hdec]
+    rw [val_append]; simp [val, d3]
+  · have hx2 : (lo ++ row.1 ++ Q).getD xi 0 = row.1.getD (yc - 1) 0 := by
+      rw [e2]; exact getD_mid lo row.1 Q _ (by omega)
+    unfold vtRow
+    simp only [g1, g2, t1, t2, t3, hquo, hrow, hx2, d4]
+    rw [← hdec]
+
+
+theorem vtLoop_zero (rc : Reciprocal) (y : List Nat) (yc : Nat) (st : List Nat × Nat) :
+    vtLoop rc y yc 0 st =
+      ((vtRow rc y yc (yc - 1) st.1 st.2).1.set (yc - 1) (vtRow rc y yc (yc - 1) st.1 st.2).2.2,
+       (vtRow rc y yc (yc - 1) st.1 st.2).2.1) := rfl
+theorem vtLoop_succ (rc : Reciprocal) (y : List Nat) (yc k : Nat) (st : List Nat × Nat) :
+    vtLoop rc y yc (k + 1) st =
+      vtLoop rc y yc k ((vtRow rc y yc (yc + k) st.1 st.2).1.set (yc + k) (vtRow rc y yc (yc + k) st.1 st.2).2.2,
+       (vtRow rc y yc (yc + k) st.1 st.2).2.1) := rfl
+
+/-- arithmetic of one step of schoolbook division: peel the top digit -/
+theorem peel_digit {lo K W Y : Nat} (hY : 0 < Y) :
+    (lo + K * W) / Y = (lo + K * (W % Y)) / Y + K * (W / Y) ∧
+    (lo + K * W) % Y = (lo + K * (W % Y)) % Y := by
+  have h := Nat.div_add_mod W Y
+  have e : lo + K * W = lo + K * (W % Y) + K * (W / Y) * Y := by
+    conv => lhs; rw [← h]
+    ring
+  rw [e, Nat.add_mul_div_right _ _ hY, Nat.add_mul_mod_self_right]
+  exact ⟨rfl, rfl⟩
+
+/-- **T02.4 (loop, vartime)** the `loop { … }` of `div_rem_vartime` from pass `k` down to `0`:
+    state `lo ++ win ++ Q` (`k` untouched low limbs, the `yc`-limb window, the digits already stored). -/
+theorem vtLoop_spec {rc : Reciprocal} (ok : RcOK rc) {y : List Nat} {yc : Nat}
+    (hyc : 2 ≤ yc) (hyl : y.length = yc) (hy : WF y) (hv1 : y.getD (yc - 1) 0 = rc.divisorNormalized) :
+    ∀ (k : Nat) (lo win Q : List Nat) (xHi : Nat), lo.length = k → win.length = yc → WF lo → WF win →
+      xHi < B → val win + B ^ yc * xHi < val y * B →
+      ∃ r ds, (vtLoop rc y yc k (lo ++ win ++ Q, xHi)).1 = r ++ ds ++ Q ∧ r.length = yc - 1 ∧
+        ds.length = k + 1 ∧ WF r ∧ WF ds ∧ (vtLoop rc y yc k (lo ++ win ++ Q, xHi)).2 < B ∧
+        val r + B ^ (yc - 1) * (vtLoop rc y yc k (lo ++ win ++ Q, xHi)).2 =
+          (val (lo ++ win) + B ^ (k + yc) * xHi) % val y ∧
+        val ds = (val (lo ++ win) + B ^ (k + yc) * xHi) / val y := by
+  have hYpos : 0 < val y := by
+    obtain ⟨ey, _⟩ := val_top2 hyc hyl hy
+    rw [hv1] at ey
+    have h1 : 0 < rc.divisorNormalized := Nat.lt_of_lt_of_le (by decide) ok.h1
+    have h2 : 0 < B ^ (yc - 2) * (B * rc.divisorNormalized) := Nat.mul_pos (Nat.pow_pos B_pos) (Nat.mul_pos B_pos h1)
+    rw [ey, Nat.mul_add]; omega
+  intro k
+  induction k with
+  | zero =>
+    intro lo win Q xHi hlo hwin hwlo hw hxHi hW
+    have hlo0 : lo = [] := List.length_eq_zero_iff.mp hlo
+    subst hlo0
+    obtain ⟨rl, rt, h1, h2, h3, h4, h5⟩ := vtRow_struct (lo := []) (Q := Q) (k := 0) (xi := yc - 1) ok hyc hyl hy hv1 rfl hwin (by omega) hw hxHi hW
+    have hWlt : (val win + B ^ yc * xHi) / val y < B := by
+      rw [Nat.div_lt_iff_lt_mul hYpos, Nat.mul_comm B (val y)]; exact hW
+    refine ⟨rl, [(val win + B ^ yc * xHi) / val y], ?_, h1, rfl, h2, WF_cons.mpr ⟨hWlt, WF_nil⟩, ?_, ?_, ?_⟩
+    · rw [vtLoop_zero]; simp only [h5]
+      have := set_mid_last [] rl Q rt ((val win + B ^ yc * xHi) / val y)
+      simp only [List.length_nil, Nat.zero_add, h1] at this
+      rw [this]; simp
+    · rw [vtLoop_zero]; simp only [h5]; exact h3
+    · rw [vtLoop_zero]; simp only [h5]; simpa using h4
+    · simp [val]
+  | succ k ih =>
+    intro lo win Q xHi hlo hwin hwlo hw hxHi hW
+    obtain ⟨rl, rt, h1, h2, h3, h4, h5⟩ := vtRow_struct (Q := Q) (k := k + 1) (xi := yc + k) ok hyc hyl hy hv1 hlo hwin (by omega) hw hxHi hW
+    have hdec := snoc_decomp hlo
+    generalize hlo' : lo.take k = lo' at hdec
+    generalize hw0 : lo.getD k 0 = w at hdec
+    have hwlt : w < B := by rw [← hw0]; exact getD_lt hwlo k
+    have hlo'l : lo'.length = k := by rw [← hlo']; simp [hlo]
+    have hlo'wf : WF lo' := by rw [← hlo']; exact WF_take hwlo k
+    generalize hq : (val win + B ^ yc * xHi) / val y = q at *
+    have hqlt : q < B := by
+      rw [← hq, Nat.div_lt_iff_lt_mul hYpos, Nat.mul_comm B (val y)]; exact hW
+    have hmod := Nat.mod_lt (val win + B ^ yc * xHi) hYpos
+    -- the next state
+    have hnext : (lo ++ (rl ++ [rt]) ++ Q).set (yc + k) q = lo' ++ (w :: rl) ++ (q :: Q) := by
+      have := set_mid_last lo rl Q rt q
+      have e : lo.length + rl.length = yc + k := by omega
+      rw [e] at this
+      rw [this, hdec]; simp
+    have hW' : val (w :: rl) + B ^ yc * rt < val y * B := by
+      have e : B ^ yc = B * B ^ (yc - 1) := by
+        have : yc = (yc - 1) + 1 := by omega
+        conv => lhs; rw [this]
+        rw [Nat.pow_succ, Nat.mul_comm]
+      have e2 : val (w :: rl) + B ^ yc * rt = w + B * (val rl + B ^ (yc - 1) * rt) := by
+        rw [val_cons, e]; ring
+      rw [e2, h4]
+      have : B * ((val win + B ^ yc * xHi) % val y + 1) ≤ B * val y := Nat.mul_le_mul_left B hmod
+      rw [Nat.mul_add, Nat.mul_one, Nat.mul_comm B (val y)] at this
+      omega
+    obtain ⟨r, ds, i1, i2, i3, i4, i5, i6, i7, i8⟩ :=
+      ih lo' (w :: rl) (q :: Q) rt hlo'l (by simp [h1]; omega) hlo'wf (WF_cons.mpr ⟨hwlt, h2⟩) h3 hW'
+    have hst : vtLoop rc y yc (k + 1) (lo ++ win ++ Q, xHi) = vtLoop rc y yc k (lo' ++ (w :: rl) ++ (q :: Q), rt) := by
+      rw [vtLoop_succ]; simp only [h5, hnext]
+    rw [hst]
+    -- arithmetic
+    have hN' : val (lo' ++ w :: rl) + B ^ (k + yc) * rt =
+        val lo + B ^ (k + 1) * ((val win + B ^ yc * xHi) % val y) := by
+      rw [← h4]
+      conv => rhs; rw [hdec]
+      rw [val_append, val_append, hlo'l, val_cons, val_cons, val_nil]
+      have e : B ^ (k + yc) = B ^ (k + 1) * B ^ (yc - 1) := by
+        rw [← Nat.pow_add]; congr 1; omega
+      rw [e, Nat.pow_succ]; ring
+    have hN : val (lo ++ win) + B ^ (k + 1 + yc) * xHi = val lo + B ^ (k + 1) * (val win + B ^ yc * xHi) := by
+      rw [val_append, hlo, Nat.pow_add]; ring
+    have hp := peel_digit (lo := val lo) (K := B ^ (k + 1)) (W := val win + B ^ yc * xHi) hYpos
+    rw [hN', ] at i7 i8
+    refine ⟨r, ds ++ [q], ?_, i2, by simp [i3], i4, WF_append.mpr ⟨i5, WF_cons.mpr ⟨hqlt, WF_nil⟩⟩, i6, ?_, ?_⟩
+    · rw [i1]; simp
+    · rw [i7, hN, hp.2]
+    · rw [val_append, i8, hN, hp.1, i3, hq]; simp [val]
+
+
+theorem zeros_WF (n : Nat) : WF (zeros n) := uzero_WF n
+theorem val_zeros (n : Nat) : val (zeros n) = 0 := val_uzero n
+theorem zeros_length (n : Nat) : (zeros n).length = n := by simp [zeros]
+
+theorem getLastD_eq_getD (a : List Nat) (h : a ≠ []) : a.getLastD 0 = a.getD (a.length - 1) 0 := by
+  simp [List.getLastD_eq_getLast?, List.getLast?_eq_getElem?, List.getD_eq_getElem?_getD]
+
+/-- the carry shifted out of a limb by `0 < s < 64` -/
+theorem carry_lt {w s : Nat} (hs : s < 64) (hw : w < B) : w / 2 ^ (64 - s) < 2 ^ s := by
+  rw [Nat.div_lt_iff_lt_mul (Nat.pow_pos (by decide)), Nat.mul_comm, ← B_split (Nat.le_of_lt hs)]
+  exact hw
+
+/-- `shl_limb_vartime(shift, limbs_num)` with `limbs_num = LIMBS` -/
+theorem shlLimbVartime_full {a : List Nat} {s : Nat} (hs : s < 64) (ha : WF a) (hne : a ≠ []) :
+    val (shlLimbVartime a s a.length).1 + B ^ a.length * (shlLimbVartime a s a.length).2 = val a * 2 ^ s ∧
+    WF (shlLimbVartime a s a.length).1 ∧ (shlLimbVartime a s a.length).1.length = a.length ∧
+    (shlLimbVartime a s a.length).2 < 2 ^ s := by
+  by_cases h0 : s = 0
+  · subst h0; simp [shlLimbVartime, ha]
+  · have ⟨i1, i2, i3⟩ := shlVtLoop_spec (prev := 0) hs (by decide) ha
+    simp only [Nat.zero_div, Nat.add_zero] at i1
+    have e : shlLimbVartime a s a.length = (shlVtLoop s (64 - s) 0 a, a.getLastD 0 / 2 ^ (64 - s)) := by
+      simp only [shlLimbVartime, if_neg h0, List.take_length, Nat.sub_self, zeros, List.replicate_zero,
+        List.append_nil, Nat.shiftRight_eq_div_pow, getLastD_eq_getD a hne]
+    rw [e]
+    exact ⟨i1, i2, i3, carry_lt hs (getLastD_lt (by decide) ha)⟩
+
+/-- a value below `B^m` has only zero limbs from index `m` on -/
+theorem val_drop_zero {a : List Nat} {m : Nat} (ha : WF a) (hm : m ≤ a.length) (hv : val a < B ^ m) :
+    val (a.drop m) = 0 ∧ val (a.take m) = val a := by
+  have h := val_take_drop a m
+  have hl : (a.take m).length = m := by simp [hm]
+  rw [hl] at h
+  have hz : val (a.drop m) = 0 := by
+    by_contra hne
+    have : B ^ m * 1 ≤ B ^ m * val (a.drop m) := Nat.mul_le_mul_left _ (by omega)
+    omega
+  rw [hz] at h; exact ⟨hz, by omega⟩
+
+theorem list_of_val_zero {a : List Nat} (ha : WF a) (hv : val a = 0) : a = zeros a.length := by
+  apply val_inj ha (zeros_WF _) (by simp [zeros])
+  rw [hv, val_zeros]
+
+/-- `shl_limb_vartime(shift, yc)` on a divisor whose shifted value fits `yc` limbs -/
+theorem shlLimbVartime_low {a : List Nat} {s m : Nat} (hs : s < 64) (ha : WF a) (hm0 : 0 < m)
+    (hm : m ≤ a.length) (hv : val a * 2 ^ s < B ^ m) :
+    val ((shlLimbVartime a s m).1.take m) = val a * 2 ^ s ∧ WF ((shlLimbVartime a s m).1.take m) ∧
+    ((shlLimbVartime a s m).1.take m).length = m ∧
+    (shlLimbVartime a s m).1.drop m = zeros (a.length - m) := by
+  have hpos : 0 < 2 ^ s := Nat.pow_pos (by decide)
+  have hva : val a < B ^ m := Nat.lt_of_le_of_lt (Nat.le_mul_of_pos_right _ hpos) hv
+  obtain ⟨z1, z2⟩ := val_drop_zero ha hm hva
+  by_cases h0 : s = 0
+  · subst h0
+    have e : shlLimbVartime a 0 m = (a, 0) := by simp [shlLimbVartime]
+    rw [e]
+    refine ⟨by simp [z2], WF_take ha m, by simp [hm], ?_⟩
+    have := list_of_val_zero (WF_drop ha m) z1
+    rw [this]; simp
+  · have hat := WF_take ha m
+    have hl : (a.take m).length = m := by simp [hm]
+    have ⟨i1, i2, i3⟩ := shlVtLoop_spec (prev := 0) hs (by decide) hat
+    simp only [Nat.zero_div, Nat.add_zero] at i1
+    rw [hl] at i1 i3
+    have e : (shlLimbVartime a s m).1 = shlVtLoop s (64 - s) 0 (a.take m) ++ zeros (a.length - m) := by
+      simp only [shlLimbVartime, if_neg h0]
+    rw [e, List.take_left' i3, List.drop_left' i3]
+    refine ⟨?_, i2, i3, rfl⟩
+    rw [z2] at i1
+    have hlt := val_lt i2
+    rw [i3] at hlt
+    generalize (a.take m).getLastD 0 / 2 ^ (64 - s) = c at *
+    have : c = 0 := by
+      by_contra hne
+      have : B ^ m * 1 ≤ B ^ m * c := Nat.mul_le_mul_left _ (by omega)
+      omega
+    rw [this] at i1; omega
+
+theorem shrVtLoop_cons2 (l r x x' : Nat) (xs : List Nat) :
+    shrVtLoop l r (x :: x' :: xs) = ((x >>> r) ||| ((x' <<< l) % B)) :: shrVtLoop l r (x' :: xs) := rfl
+
+/-- value of the vartime right-shift loop (`0 < s < 64`) -/
+theorem shrVtLoop_spec {xs : List Nat} {s : Nat} (hs0 : 0 < s) (hs : s < 64) (hx : WF xs) :
+    val (shrVtLoop (64 - s) s xs) = val xs / 2 ^ s ∧ WF (shrVtLoop (64 - s) s xs) ∧
+    (shrVtLoop (64 - s) s xs).length = xs.length := by
+  induction xs with
+  | nil => simp [shrVtLoop, WF_nil]
+  | cons x xs ih =>
+    have ⟨hx0, hxs⟩ := WF_cons.mp hx
+    cases xs with
+    | nil =>
+      have e : shrVtLoop (64 - s) s [x] = [x >>> s] := rfl
+      rw [e]
+      refine ⟨by simp [val, Nat.shiftRight_eq_div_pow], WF_cons.mpr ⟨shr_lt_B hx0, WF_nil⟩, rfl⟩
+    | cons x' xs =>
+      have ⟨hx0', _⟩ := WF_cons.mp hxs
+      have ⟨i1, i2, i3⟩ := ih hxs
+      rw [shrVtLoop_cons2]
+      have hw := shl_limb_word (x := x') (p := x) (s := 64 - s) (by omega) hx0
+      have e64 : 64 - (64 - s) = s := by omega
+      rw [e64] at hw
+      obtain ⟨w1, w2⟩ := hw
+      have hor : (x >>> s) ||| ((x' <<< (64 - s)) % B) = (x' % 2 ^ s) * 2 ^ (64 - s) + x / 2 ^ s := by
+        rw [Nat.or_comm]; exact w1
+      refine ⟨?_, WF_cons.mpr ⟨by rw [hor]; exact w2, i2⟩, by simp [i3]⟩
+      have hv2 : val (x :: x' :: xs) = x + B * val (x' :: xs) := val_cons _ _
+      rw [hv2, val_cons, hor, i1]
+      have hB : B = 2 ^ s * 2 ^ (64 - s) := by
+        have := B_split (s := 64 - s) (by omega); rw [e64] at this; exact this
+      generalize hV : val (x' :: xs) = V at *
+      have hVm : V % 2 ^ s = x' % 2 ^ s := by
+        rw [← hV, val_cons, hB, Nat.mul_assoc, Nat.add_mul_mod_self_left]
+      have hpos : 0 < 2 ^ s := Nat.pow_pos (by decide)
+      have e1 : x + B * V = x + 2 ^ s * (2 ^ (64 - s) * V) := by rw [hB]; ring
+      rw [e1, Nat.add_mul_div_left _ _ hpos, ← hVm]
+      have hdm := Nat.div_add_mod V (2 ^ s)
+      have e2 : 2 ^ (64 - s) * V = V % 2 ^ s * 2 ^ (64 - s) + B * (V / 2 ^ s) := by
+        conv => lhs; rw [← hdm]
+        rw [hB]; ring
+      rw [e2]; ring
+
+/-- `shr_limb_vartime(shift, yc)` on `rem ++ zeros` -/
+theorem shrLimbVartime_low {a : List Nat} {s m : Nat} (hs : s < 64) (ha : WF a) (hm : m ≤ a.length)
+    (hz : val (a.drop m) = 0) :
+    val (shrLimbVartime a s m) = val a / 2 ^ s ∧ WF (shrLimbVartime a s m) ∧
+    (shrLimbVartime a s m).length = a.length := by
+  by_cases h0 : s = 0
+  · subst h0; simp [shrLimbVartime, ha]
+  · have hat := WF_take ha m
+    have hl : (a.take m).length = m := by simp [hm]
+    have ⟨i1, i2, i3⟩ := shrVtLoop_spec (Nat.pos_of_ne_zero h0) hs hat
+    have e : shrLimbVartime a s m = shrVtLoop (64 - s) s (a.take m) ++ zeros (a.length - m) := by
+      simp only [shrLimbVartime, if_neg h0]
+    have hva := val_take_drop a m
+    rw [hz, Nat.mul_zero, Nat.add_zero] at hva
+    rw [e]
+    refine ⟨by rw [val_append, val_zeros, Nat.mul_zero, Nat.add_zero, i1, hva], WF_append.mpr ⟨i2, zeros_WF _⟩, ?_⟩
+    rw [List.length_append, i3, hl, zeros_length]; omega
+
+
+theorem B_pow_eq (m : Nat) : B ^ m = 2 ^ (64 * m) := by rw [B_eq_pow, ← Nat.pow_mul]
+
+theorem bitLen_spec {v : Nat} (hv : v ≠ 0) : 2 ^ (bitLen v - 1) ≤ v ∧ v < 2 ^ bitLen v ∧ 0 < bitLen v := by
+  have h1 := Nat.log2_self_le hv
+  have h2 := Nat.lt_log2_self (n := v)
+  simp only [bitLen, if_neg hv, Nat.add_sub_cancel]
+  exact ⟨h1, h2, Nat.succ_pos _⟩
+
+/-- the normalisation shift of a non-zero divisor: `yc` limbs, top bit set -/
+theorem norm_facts {v dbits yc s : Nat} (hv : v ≠ 0) (hd : dbits = bitLen v) (hyc : yc = (dbits + 63) / 64)
+    (hs : s = (64 - dbits % 64) % 64) :
+    s < 64 ∧ 1 ≤ yc ∧ HALF * B ^ (yc - 1) ≤ v * 2 ^ s ∧ v * 2 ^ s < B ^ yc := by
+  obtain ⟨b1, b2, b3⟩ := bitLen_spec hv
+  rw [← hd] at b1 b2 b3
+  have e1 : dbits + s = 64 * yc := by omega
+  have hpos : 0 < 2 ^ s := Nat.pow_pos (by decide)
+  refine ⟨by omega, by omega, ?_, ?_⟩
+  · have : HALF * B ^ (yc - 1) = 2 ^ (dbits - 1) * 2 ^ s := by
+      rw [B_pow_eq, ← Nat.pow_add]
+      have : HALF = 2 ^ 63 := by decide
+      rw [this, ← Nat.pow_add]; congr 1; omega
+    rw [this]; exact Nat.mul_le_mul_right _ b1
+  · have : B ^ yc = 2 ^ dbits * 2 ^ s := by rw [B_pow_eq, ← Nat.pow_add, e1]
+    rw [this]; exact Nat.mul_lt_mul_of_pos_right b2 hpos
+
+theorem top_limb_normalized {Y : List Nat} {m : Nat} (hm : 1 ≤ m) (hl : Y.length = m) (hY : WF Y)
+    (hv : HALF * B ^ (m - 1) ≤ val Y) : HALF ≤ Y.getD (m - 1) 0 := by
+  have hdec := snoc_decomp (l := Y) (n := m - 1) (by omega)
+  have hv2 : val Y = val (Y.take (m - 1)) + B ^ (m - 1) * Y.getD (m - 1) 0 := by
+    conv => lhs; rw [hdec]
+    rw [val_append]; simp [val, hl]
+  have hlt := val_lt (WF_take hY (m - 1))
+  have hll : (Y.take (m - 1)).length = m - 1 := by simp [hl]
+  rw [hll] at hlt
+  by_contra hc
+  have h1 : B ^ (m - 1) * (Y.getD (m - 1) 0 + 1) ≤ B ^ (m - 1) * HALF := Nat.mul_le_mul_left _ (by omega)
+  rw [Nat.mul_add, Nat.mul_one, Nat.mul_comm _ HALF] at h1
+  omega
+
+theorem Reciprocal_new_normalized (H : HRecip) {d : Nat} (hd1 : HALF ≤ d) (hd : d < B) :
+    RcOK (Reciprocal.new d) ∧ (Reciprocal.new d).divisorNormalized = d := by
+  have hd0 : 0 < d := Nat.lt_of_lt_of_le (by decide) hd1
+  obtain ⟨ok, e1, _⟩ := Reciprocal_new_ok H hd0 hd
+  obtain ⟨_, _, l3⟩ := leadingZeros_spec hd0 hd
+  have hz : leadingZeros d = 0 := by
+    by_contra hne
+    have : 2 ^ 1 ≤ 2 ^ leadingZeros d := Nat.pow_le_pow_right (by decide) (by omega)
+    have h2 : d * 2 ^ 1 ≤ d * 2 ^ leadingZeros d := Nat.mul_le_mul_left _ this
+    simp only [B_def, HALF_def] at *; omega
+  rw [hz] at e1
+  exact ⟨ok, by rw [e1]; simp⟩
+
+theorem getD_take {l : List Nat} {m i : Nat} (h : i < m) : (l.take m).getD i 0 = l.getD i 0 := by
+  simp [List.getD_eq_getElem?_getD, h]
+
+theorem eq_toLimbs {l : List Nat} {n v : Nat} (hl : WF l) (hn : l.length = n) (hv : val l = v) :
+    l = toLimbs n v := by
+  rw [← hn, ← hv, toLimbs_val hl]
+
+
+/-- **T02.7 (core)** the Knuth part of `div_rem_vartime` (`2 ≤ yc ≤ LIMBS`) -/
+theorem divRemVartimeCore_spec (H : HRecip) {n d : List Nat} (hn : WF n) (hd : WF d) (hd0 : val d ≠ 0)
+    {dbits yc : Nat} (hdb : dbits = bitLen (val d)) (hyc : yc = (dbits + 63) / 64) (h2 : 2 ≤ yc)
+    (hL : yc ≤ n.length) :
+    divRemVartimeCore n d dbits yc =
+      (toLimbs n.length (val n / val d), toLimbs d.length (val n % val d)) := by
+  obtain ⟨s, hs⟩ : ∃ s, s = (64 - dbits % 64) % 64 := ⟨_, rfl⟩
+  obtain ⟨n1, n2, n3, n4⟩ := norm_facts hd0 hdb hyc hs
+  have hpos : 0 < 2 ^ s := Nat.pow_pos (by decide)
+  -- yc ≤ d.length
+  have hR : yc ≤ d.length := by
+    obtain ⟨b1, _, b3⟩ := bitLen_spec hd0
+    rw [← hdb] at b1 b3
+    have := Nat.lt_of_le_of_lt b1 (val_lt hd)
+    rw [B_pow_eq] at this
+    have := (Nat.pow_lt_pow_iff_right (by decide : 1 < 2)).mp this
+    omega
+  have hne : n ≠ [] := by intro h; rw [h] at hL; simp at hL; omega
+  obtain ⟨x1, x2, x3, x4⟩ := shlLimbVartime_full n1 hn hne
+  obtain ⟨y1, y2, y3, y4⟩ := shlLimbVartime_low n1 hd (by omega) hR n4
+  have hy0 : (shlLimbVartime d s yc).1.getD (yc - 1) 0 = ((shlLimbVartime d s yc).1.take yc).getD (yc - 1) 0 :=
+    (getD_take (by omega)).symm
+  have htop := top_limb_normalized (by omega) y3 y2 (by rw [y1]; exact n3)
+  have htoplt := getD_lt y2 (yc - 1)
+  obtain ⟨ok, hdn⟩ := Reciprocal_new_normalized H htop htoplt
+  unfold divRemVartimeCore
+  simp only [← hs, hy0]
+  generalize hX : shlLimbVartime n s n.length = X at *
+  generalize hYf : (shlLimbVartime d s yc).1 = Yf at *
+  generalize hYl : Yf.take yc = Yl at *
+  generalize hrc : Reciprocal.new (Yl.getD (yc - 1) 0) = rc at *
+  -- loop
+  have hxsplit : X = (X.1.take (n.length - yc) ++ X.1.drop (n.length - yc) ++ [], X.2) := by
+    simp
+  have hlol : (X.1.take (n.length - yc)).length = n.length - yc := by simp [x3]
+  have hwinl : (X.1.drop (n.length - yc)).length = yc := by simp [x3]; omega
+  have hwinlt := val_lt (WF_drop x2 (n.length - yc))
+  rw [hwinl] at hwinlt
+  have hHB : 2 ^ s ≤ HALF := by
+    have : HALF = 2 ^ 63 := by decide
+    rw [this]; exact Nat.pow_le_pow_right (by decide) (by omega)
+  have hBy : B ^ yc = B ^ (yc - 1) * B := by
+    have : yc = (yc - 1) + 1 := by omega
+    conv => lhs; rw [this]
+    rw [Nat.pow_succ]
+  have hW : val (X.1.drop (n.length - yc)) + B ^ yc * X.2 < val Yl * B := by
+    have h1 : B ^ yc * (X.2 + 1) ≤ B ^ yc * HALF := Nat.mul_le_mul_left _ (by omega)
+    have h3 : HALF * B ^ (yc - 1) * B ≤ val Yl * B := Nat.mul_le_mul_right B (by rw [y1]; exact n3)
+    have e : HALF * B ^ (yc - 1) * B = B ^ yc * HALF := by rw [hBy]; ring
+    rw [Nat.mul_add, Nat.mul_one] at h1
+    omega
+  obtain ⟨r, ds, l1, l2, l3, l4, l5, l6, l7, l8⟩ :=
+    vtLoop_spec ok h2 y3 y2 hdn.symm (n.length - yc) _ _ [] X.2 hlol hwinl (WF_take x2 _) (WF_drop x2 _)
+      (Nat.lt_of_lt_of_le x4 (Nat.le_trans hHB (by decide))) hW
+  rw [← hxsplit] at l1 l6 l7
+  rw [List.take_append_drop, show n.length - yc + yc = n.length by omega, x1, y1] at l7 l8
+  rw [Nat.mul_mod_mul_right] at l7
+  rw [Nat.mul_div_mul_right _ _ hpos] at l8
+  generalize vtLoop rc Yl yc (n.length - yc) X = st at *
+  rw [List.append_nil] at l1
+  have hq : st.1.drop (yc - 1) ++ zeros (yc - 1) = toLimbs n.length (val n / val d) := by
+    apply eq_toLimbs
+    · rw [l1, List.drop_left' l2]; exact WF_append.mpr ⟨l5, zeros_WF _⟩
+    · rw [l1, List.drop_left' l2, List.length_append, l3, zeros_length]; omega
+    · rw [l1, List.drop_left' l2, val_append, val_zeros, Nat.mul_zero, Nat.add_zero, l8]
+  have hr : shrLimbVartime (st.1.take (yc - 1) ++ [st.2] ++ Yf.drop yc) s yc =
+      toLimbs d.length (val n % val d) := by
+    rw [l1, List.take_left' l2, y4]
+    have hwf : WF (r ++ [st.2] ++ zeros (d.length - yc)) :=
+      WF_append.mpr ⟨WF_append.mpr ⟨l4, WF_cons.mpr ⟨l6, WF_nil⟩⟩, zeros_WF _⟩
+    have hlen : (r ++ [st.2] ++ zeros (d.length - yc)).length = d.length := by
+      simp [l2, zeros_length]; omega
+    have hdz : (r ++ [st.2] ++ zeros (d.length - yc)).drop yc = zeros (d.length - yc) :=
+      List.drop_left' (by simp [l2]; omega)
+    obtain ⟨s1, s2, s3⟩ := shrLimbVartime_low (m := yc) n1 hwf (by rw [hlen]; exact hR) (by rw [hdz, val_zeros])
+    apply eq_toLimbs s2 (by rw [s3, hlen])
+    rw [s1, val_append, val_zeros, Nat.mul_zero, Nat.add_zero, val_append, l2]
+    simp only [val_cons, val_nil, Nat.mul_zero, Nat.add_zero]
+    rw [l7, Nat.mul_div_cancel _ hpos]
+  rw [hq, hr]
+
+
+/-- limb count of a non-zero divisor: `B^(yc-1) ≤ v < B^yc`, and it fits the divisor's own width -/
+theorem yc_facts {d : List Nat} (hd : WF d) (hd0 : val d ≠ 0) {dbits yc : Nat} (hdb : dbits = bitLen (val d))
+    (hyc : yc = (dbits + 63) / 64) : 1 ≤ yc ∧ yc ≤ d.length ∧ B ^ (yc - 1) ≤ val d ∧ val d < B ^ yc := by
+  obtain ⟨b1, b2, b3⟩ := bitLen_spec hd0
+  rw [← hdb] at b1 b2 b3
+  have h1 := Nat.lt_of_le_of_lt b1 (val_lt hd)
+  rw [B_pow_eq] at h1
+  have h2 := (Nat.pow_lt_pow_iff_right (by decide : 1 < 2)).mp h1
+  refine ⟨by omega, by omega, ?_, ?_⟩
+  · rw [B_pow_eq]; exact Nat.le_trans (Nat.pow_le_pow_right (by decide) (by omega)) b1
+  · rw [B_pow_eq]; exact Nat.lt_of_lt_of_le b2 (Nat.pow_le_pow_right (by decide) (by omega))
+
+theorem single_limb_val {d : List Nat} (hd : WF d) (hv : val d < B) (hne : d ≠ []) : val d = d.getD 0 0 := by
+  cases d with
+  | nil => exact absurd rfl hne
+  | cons x xs =>
+    have := val_drop_zero (m := 1) hd (by simp) (by simpa using hv)
+    simp at this ⊢
+    omega
+
+/-- **T02.7** `Uint::div_rem_vartime` (all width pairs): the three branches. -/
+theorem divRemVartime_spec (H : HRecip) {n d : List Nat} (hn : WF n) (hd : WF d) (hd0 : val d ≠ 0) :
+    divRemVartime n d = (toLimbs n.length (val n / val d), toLimbs d.length (val n % val d)) := by
+  obtain ⟨f1, f2, f3, f4⟩ := yc_facts hd hd0 rfl rfl
+  unfold divRemVartime
+  simp only []
+  generalize hyc : (bitLen (val d) + 63) / 64 = yc at *
+  by_cases h1 : yc = 1
+  · rw [if_pos h1]
+    subst h1
+    have hne : d ≠ [] := by intro h; rw [h] at hd0; exact hd0 rfl
+    have hv := single_limb_val hd (by simpa using f4) hne
+    have hd0' : 0 < d.getD 0 0 := by omega
+    obtain ⟨e1, e2, _⟩ := divRemLimb_spec H hd0' (getD_lt hd 0) hn
+    unfold divRemLimb at e1 e2
+    rw [e1, e2, hv]
+  · rw [if_neg h1]
+    by_cases h2 : yc > n.length
+    · rw [if_pos h2]
+      have hlt : val n < val d := by
+        have := val_lt hn
+        have : B ^ n.length ≤ B ^ (yc - 1) := Nat.pow_le_pow_right B_pos (by omega)
+        omega
+      rw [Nat.div_eq_of_lt hlt, Nat.mod_eq_of_lt hlt]
+      congr 1
+      · exact eq_toLimbs (zeros_WF _) (zeros_length _) (val_zeros _)
+      · unfold resize
+        rw [List.take_of_length_le (by omega)]
+        apply eq_toLimbs (WF_append.mpr ⟨hn, zeros_WF _⟩)
+        · rw [List.length_append, zeros_length]; omega
+        · rw [val_append, val_zeros, Nat.mul_zero, Nat.add_zero]
+    · rw [if_neg h2]
+      exact divRemVartimeCore_spec H hn hd hd0 rfl hyc.symm (by omega) (by omega)
+
 end CB.Div
